@@ -130,6 +130,8 @@ package state
 //@ func newNick
 //@   property C14, C12
 //@   safety C12
+//@   requires [C12] TI()
+//@   ensures [C12] TI() && isa(result, "nick")
 //@   ensures result != nil && fresh(result) && nickOK(result) && result.nick == n && result.modes != nil && fresh(result.modes)
 //@   ensures result.chans != nil && fresh(result.chans) && result.lookup != nil && fresh(result.lookup) && dom(result.chans) === emptyset() && dom(result.lookup) === emptyset()
 //@ end
@@ -137,6 +139,8 @@ package state
 //@ func newChannel
 //@   property C14, C12
 //@   safety C12
+//@   requires [C12] TI()
+//@   ensures [C12] TI() && isa(result, "channel")
 //@   ensures result != nil && fresh(result) && chanOK(result) && result.name == name && result.modes != nil && fresh(result.modes)
 //@   ensures result.nicks != nil && fresh(result.nicks) && result.lookup != nil && fresh(result.lookup) && dom(result.nicks) === emptyset() && dom(result.lookup) === emptyset()
 //@ end
@@ -144,6 +148,8 @@ package state
 //@ func (*nick).addChannel
 //@   property C12
 //@   safety C12
+//@   requires [C12] TI() && cp != nil
+//@   ensures [C12] TI()
 //@   requires nk != nil && nk.chans != nil && nk.lookup != nil && ch != nil
 //@   modifies entries(nk.chans), entries(nk.lookup), $log
 //@   ensures !old(has(nk.chans, ch)) ==> dom(nk.chans) === setadd(old(dom(nk.chans)), ch) && nk.chans[ch] == cp
@@ -156,6 +162,8 @@ package state
 //@ func (*nick).delChannel
 //@   property C12
 //@   safety C12
+//@   requires [C12] TI()
+//@   ensures [C12] TI()
 //@   requires nk != nil && ch != nil && nk.chans != nil && nk.lookup != nil
 //@   modifies entries(nk.chans), entries(nk.lookup), $log
 //@   ensures old(has(nk.chans, ch)) ==> dom(nk.chans) === upd(old(dom(nk.chans)), ch, false) && dom(nk.lookup) === upd(old(dom(nk.lookup)), ch.name, false)
@@ -166,6 +174,8 @@ package state
 //@ func (*channel).addNick
 //@   property C12
 //@   safety C12
+//@   requires [C12] TI() && cp != nil
+//@   ensures [C12] TI()
 //@   requires ch != nil && ch.nicks != nil && ch.lookup != nil && nk != nil
 //@   modifies entries(ch.nicks), entries(ch.lookup), $log
 //@   ensures !old(has(ch.nicks, nk)) ==> dom(ch.nicks) === setadd(old(dom(ch.nicks)), nk) && ch.nicks[nk] == cp
@@ -178,6 +188,8 @@ package state
 //@ func (*channel).delNick
 //@   property C12
 //@   safety C12
+//@   requires [C12] TI()
+//@   ensures [C12] TI()
 //@   requires ch != nil && nk != nil && ch.nicks != nil && ch.lookup != nil
 //@   modifies entries(ch.nicks), entries(ch.lookup), $log
 //@   ensures old(has(ch.nicks, nk)) ==> dom(ch.nicks) === upd(old(dom(ch.nicks)), nk, false) && dom(ch.lookup) === upd(old(dom(ch.lookup)), nk.nick, false)
@@ -201,35 +213,77 @@ package state
 
 // internal helpers: called with st.mu held
 //@ func (*stateTracker).delNick
-//@   property C14
+//@   property C14, C12
+//@   safety C12
 //@   attr lockcheck=C14
 //@   requires st != nil && held(st.mu) == 1
-//@   requires [C12] nickOK(nk)
+//@   requires [C12] RI(st) && tracked(st, nk) && isa(nk, "nick")
+//@   ensures [C12] RI(st)
+//@   ensures [C12] st.me == old(st.me) && st.nicks == old(st.nicks) && st.chans == old(st.chans) && nk.nick == old(nk.nick)
+//@   ensures [C12] dom(st.chans) === old(dom(st.chans)) && vals(st.chans) === old(vals(st.chans)) && vals(st.nicks) === old(vals(st.nicks))
+//@   ensures [C12] nk == st.me ==> dom(st.nicks) === old(dom(st.nicks))
+//@   ensures [C12] nk != st.me ==> dom(st.nicks) === upd(old(dom(st.nicks)), nk.nick, false) && dom(nk.chans) === emptyset()
+//@   ensures [C12] forall c *channel, n *nick :: isa(c, "channel") && has(c.nicks, n) ==> old(has(c.nicks, n))
+//@   ensures [C12] forall c *channel, n *nick :: isa(c, "channel") && old(has(c.nicks, n)) && n != nk ==> has(c.nicks, n)
+//@   ensures [C12] forall n *nick :: isa(n, "nick") && n != nk ==> dom(n.chans) === old(dom(n.chans))
+//@   ensures [C12] mapValsSame()
 //@   modifies mapsof("map[string]*nick"), mapsof("map[string]*channel"), mapsof("map[*nick]*ChanPrivs"), mapsof("map[*channel]*ChanPrivs"), $log
 //@   ensures $held === old($held)
 //@   loop 0:
-//@     invariant true
+//@     invariant [C12] HI() && trkShape(st) && sepIdx(st) && LTx(st, nk) && nk != nil && isa(nk, "nick") && nk != st.me
+//@     invariant [C12] forall n *nick :: isa(n, "nick") && n != nk ==> dom(n.chans) === old(dom(n.chans))
+//@     invariant [C12] mapValsSame()
+//@     invariant [C12] st.me == old(st.me) && st.nicks == old(st.nicks) && st.chans == old(st.chans) && nk.nick == old(nk.nick)
+//@     invariant [C12] dom(st.chans) === old(dom(st.chans)) && vals(st.chans) === old(vals(st.chans)) && vals(st.nicks) === old(vals(st.nicks))
+//@     invariant [C12] dom(st.nicks) === upd(old(dom(st.nicks)), nk.nick, false)
+//@     invariant [C12] forall c *channel :: has(nk.chans, c) ==> !has(visited(), c)
+//@     invariant [C12] forall c *channel, n *nick :: isa(c, "channel") && has(c.nicks, n) ==> old(has(c.nicks, n))
+//@     invariant [C12] forall c *channel, n *nick :: isa(c, "channel") && old(has(c.nicks, n)) && n != nk ==> has(c.nicks, n)
 //@ end
 //@ func (*stateTracker).delChannel
-//@   property C14
+//@   property C14, C12
+//@   safety C12
 //@   attr lockcheck=C14
 //@   requires st != nil && held(st.mu) == 1
-//@   requires [C12] chanOK(ch)
+//@   requires [C12] RI(st) && trackedC(st, ch) && isa(ch, "channel")
+//@   ensures [C12] RI(st)
+//@   ensures [C12] st.me == old(st.me) && st.nicks == old(st.nicks) && st.chans == old(st.chans) && ch.name == old(ch.name)
+//@   ensures [C12] dom(st.chans) === upd(old(dom(st.chans)), ch.name, false) && vals(st.chans) === old(vals(st.chans)) && vals(st.nicks) === old(vals(st.nicks))
+//@   ensures [C12] dom(ch.nicks) === emptyset()
+//@   ensures [C12] forall c *channel, n *nick :: isa(c, "channel") && c != ch ==> (has(c.nicks, n) <==> old(has(c.nicks, n)))
+//@   ensures [C12] forall k int :: has(dom(st.nicks), k) ==> old(has(dom(st.nicks), k))
+//@   ensures [C12] mapValsSame()
+// garbage collection: exactly the other nicks left sharing no channel are forgotten
+//@   ensures [C12] forall n *nick :: old(has(ch.nicks, n)) && n != st.me && len(n.chans) == 0 ==> !has(st.nicks, n.nick)
+//@   ensures [C12] forall k int :: old(has(dom(st.nicks), k)) && !has(dom(st.nicks), k) ==> old(has(ch.nicks, vals(st.nicks)[k])) && vals(st.nicks)[k] != st.me && len(vals(st.nicks)[k].chans) == 0
 //@   modifies mapsof("map[string]*nick"), mapsof("map[string]*channel"), mapsof("map[*nick]*ChanPrivs"), mapsof("map[*channel]*ChanPrivs"), $log
 //@   ensures $held === old($held)
 //@   loop 0:
-//@     invariant true
+//@     invariant [C12] HI() && trkShape(st) && sepIdx(st) && LT(st) && ch != nil && isa(ch, "channel")
+//@     invariant [C12] mapValsSame()
+//@     invariant [C12] forall n *nick :: old(has(ch.nicks, n)) && !has(ch.nicks, n) && n != st.me && len(n.chans) == 0 ==> !has(st.nicks, n.nick)
+//@     invariant [C12] forall k int :: old(has(dom(st.nicks), k)) && !has(dom(st.nicks), k) ==> old(has(ch.nicks, vals(st.nicks)[k])) && !has(ch.nicks, vals(st.nicks)[k]) && vals(st.nicks)[k] != st.me && len(vals(st.nicks)[k].chans) == 0
+//@     invariant [C12] forall n *nick :: has(ch.nicks, n) ==> tracked(st, n)
+//@     invariant [C12] st.me == old(st.me) && st.nicks == old(st.nicks) && st.chans == old(st.chans) && ch.name == old(ch.name)
+//@     invariant [C12] dom(st.chans) === upd(old(dom(st.chans)), ch.name, false) && vals(st.chans) === old(vals(st.chans)) && vals(st.nicks) === old(vals(st.nicks))
+//@     invariant [C12] forall n *nick :: has(ch.nicks, n) ==> !has(visited(), n) && old(has(ch.nicks, n))
+//@     invariant [C12] forall c *channel, n *nick :: isa(c, "channel") && c != ch ==> (has(c.nicks, n) <==> old(has(c.nicks, n)))
+//@     invariant [C12] forall k int :: has(dom(st.nicks), k) ==> old(has(dom(st.nicks), k))
 //@ end
 //@ func (*nick).parseModes
-//@   property C14
+//@   property C14, C12
 //@   requires nk != nil
+//@   requires [C12] TI()
+//@   ensures [C12] TI()
 //@   modifies NickMode.Bot, NickMode.Invisible, NickMode.Oper, NickMode.WallOps, NickMode.HiddenHost, NickMode.SSL, $log
 //@   loop 0:
 //@     invariant true
 //@ end
 //@ func (*channel).parseModes
-//@   property C14
+//@   property C14, C12
 //@   requires ch != nil
+//@   requires [C12] TI()
+//@   ensures [C12] TI()
 //@   modifies ChanMode.Private, ChanMode.Secret, ChanMode.ProtectedTopic, ChanMode.NoExternalMsg, ChanMode.Moderated, ChanMode.InviteOnly
 //@   modifies ChanMode.OperOnly, ChanMode.SSLOnly, ChanMode.Registered, ChanMode.AllSSL, ChanMode.Key, ChanMode.Limit
 //@   modifies ChanPrivs.Owner, ChanPrivs.Admin, ChanPrivs.Op, ChanPrivs.HalfOp, ChanPrivs.Voice, $log
@@ -237,8 +291,10 @@ package state
 //@     invariant true
 //@ end
 //@ func (*stateTracker).Wipe
-//@   property C14
+//@   property C14, C12
 //@   attr lockcheck=C14
+//@   requires [C12] TI()
+//@   ensures [C12] TI()
 //@   requires trkOK(st) && held(st.mu) == 0
 //@   modifies mapsof("map[string]*nick"), mapsof("map[string]*channel"), mapsof("map[*nick]*ChanPrivs"), mapsof("map[*channel]*ChanPrivs"), nick.nick, nick.ident, nick.host, nick.name, channel.topic, $log, $held, $tr
 //@   ensures $held === old($held)
@@ -249,6 +305,8 @@ package state
 //@ func (*stateTracker).NewNick
 //@   property C14, C12
 //@   attr lockcheck=C14
+//@   requires [C12] TI()
+//@   ensures [C12] TI()
 //@   requires trkOK(st) && held(st.mu) == 0
 //@   modifies mapsof("map[string]*nick"), mapsof("map[string]*channel"), mapsof("map[*nick]*ChanPrivs"), mapsof("map[*channel]*ChanPrivs"), nick.nick, nick.ident, nick.host, nick.name, channel.topic, $log, $held, $tr
 //@   ensures $held === old($held)
@@ -266,6 +324,8 @@ package state
 //@ func (*stateTracker).GetNick
 //@   property C14, C12
 //@   attr lockcheck=C14
+//@   requires [C12] TI()
+//@   ensures [C12] TI()
 //@   requires trkOK(st) && held(st.mu) == 0
 //@   modifies mapsof("map[string]*nick"), mapsof("map[string]*channel"), mapsof("map[*nick]*ChanPrivs"), mapsof("map[*channel]*ChanPrivs"), nick.nick, nick.ident, nick.host, nick.name, channel.topic, $log, $held, $tr
 //@   ensures $held === old($held)
@@ -277,8 +337,10 @@ package state
 //@   ensures [C12] trkUnchanged(st)
 //@ end
 //@ func (*stateTracker).ReNick
-//@   property C14
+//@   property C14, C12
 //@   attr lockcheck=C14
+//@   requires [C12] TI()
+//@   ensures [C12] TI()
 //@   requires trkOK(st) && held(st.mu) == 0
 //@   modifies mapsof("map[string]*nick"), mapsof("map[string]*channel"), mapsof("map[*nick]*ChanPrivs"), mapsof("map[*channel]*ChanPrivs"), nick.nick, nick.ident, nick.host, nick.name, channel.topic, $log, $held, $tr
 //@   ensures $held === old($held)
@@ -288,8 +350,10 @@ package state
 //@     invariant held(st.mu) == 1 && $held === upd(old($held), st.mu, 1)
 //@ end
 //@ func (*stateTracker).DelNick
-//@   property C14
+//@   property C14, C12
 //@   attr lockcheck=C14
+//@   requires [C12] TI()
+//@   ensures [C12] TI()
 //@   requires trkOK(st) && held(st.mu) == 0
 //@   modifies mapsof("map[string]*nick"), mapsof("map[string]*channel"), mapsof("map[*nick]*ChanPrivs"), mapsof("map[*channel]*ChanPrivs"), nick.nick, nick.ident, nick.host, nick.name, channel.topic, $log, $held, $tr
 //@   ensures $held === old($held)
@@ -299,6 +363,8 @@ package state
 //@ func (*stateTracker).NickInfo
 //@   property C14, C12
 //@   attr lockcheck=C14
+//@   requires [C12] TI()
+//@   ensures [C12] TI()
 //@   requires trkOK(st) && held(st.mu) == 0
 //@   modifies mapsof("map[string]*nick"), mapsof("map[string]*channel"), mapsof("map[*nick]*ChanPrivs"), mapsof("map[*channel]*ChanPrivs"), nick.nick, nick.ident, nick.host, nick.name, channel.topic, $log, $held, $tr
 //@   ensures $held === old($held)
@@ -314,8 +380,10 @@ package state
 //@   ensures [C12] trkShape(st)
 //@ end
 //@ func (*stateTracker).NickModes
-//@   property C14
+//@   property C14, C12
 //@   attr lockcheck=C14
+//@   requires [C12] TI()
+//@   ensures [C12] TI()
 //@   requires trkOK(st) && held(st.mu) == 0
 //@   modifies mapsof("map[string]*nick"), mapsof("map[string]*channel"), mapsof("map[*nick]*ChanPrivs"), mapsof("map[*channel]*ChanPrivs"), nick.nick, nick.ident, nick.host, nick.name, channel.topic, $log, $held, $tr
 //@   ensures $held === old($held)
@@ -323,8 +391,10 @@ package state
 //@   ensures result == nil || freshNick(result)
 //@ end
 //@ func (*stateTracker).NewChannel
-//@   property C14
+//@   property C14, C12
 //@   attr lockcheck=C14
+//@   requires [C12] TI()
+//@   ensures [C12] TI()
 //@   requires trkOK(st) && held(st.mu) == 0
 //@   modifies mapsof("map[string]*nick"), mapsof("map[string]*channel"), mapsof("map[*nick]*ChanPrivs"), mapsof("map[*channel]*ChanPrivs"), nick.nick, nick.ident, nick.host, nick.name, channel.topic, $log, $held, $tr
 //@   ensures $held === old($held)
@@ -332,8 +402,10 @@ package state
 //@   ensures result == nil || freshChannel(result)
 //@ end
 //@ func (*stateTracker).GetChannel
-//@   property C14
+//@   property C14, C12
 //@   attr lockcheck=C14
+//@   requires [C12] TI()
+//@   ensures [C12] TI()
 //@   requires trkOK(st) && held(st.mu) == 0
 //@   modifies mapsof("map[string]*nick"), mapsof("map[string]*channel"), mapsof("map[*nick]*ChanPrivs"), mapsof("map[*channel]*ChanPrivs"), nick.nick, nick.ident, nick.host, nick.name, channel.topic, $log, $held, $tr
 //@   ensures $held === old($held)
@@ -341,8 +413,10 @@ package state
 //@   ensures result == nil || freshChannel(result)
 //@ end
 //@ func (*stateTracker).DelChannel
-//@   property C14
+//@   property C14, C12
 //@   attr lockcheck=C14
+//@   requires [C12] TI()
+//@   ensures [C12] TI()
 //@   requires trkOK(st) && held(st.mu) == 0
 //@   modifies mapsof("map[string]*nick"), mapsof("map[string]*channel"), mapsof("map[*nick]*ChanPrivs"), mapsof("map[*channel]*ChanPrivs"), nick.nick, nick.ident, nick.host, nick.name, channel.topic, $log, $held, $tr
 //@   ensures $held === old($held)
@@ -350,8 +424,10 @@ package state
 //@   ensures result == nil || freshChannel(result)
 //@ end
 //@ func (*stateTracker).Topic
-//@   property C14
+//@   property C14, C12
 //@   attr lockcheck=C14
+//@   requires [C12] TI()
+//@   ensures [C12] TI()
 //@   requires trkOK(st) && held(st.mu) == 0
 //@   modifies mapsof("map[string]*nick"), mapsof("map[string]*channel"), mapsof("map[*nick]*ChanPrivs"), mapsof("map[*channel]*ChanPrivs"), nick.nick, nick.ident, nick.host, nick.name, channel.topic, $log, $held, $tr
 //@   ensures $held === old($held)
@@ -359,8 +435,10 @@ package state
 //@   ensures result == nil || freshChannel(result)
 //@ end
 //@ func (*stateTracker).ChannelModes
-//@   property C14
+//@   property C14, C12
 //@   attr lockcheck=C14
+//@   requires [C12] TI()
+//@   ensures [C12] TI()
 //@   requires trkOK(st) && held(st.mu) == 0
 //@   modifies mapsof("map[string]*nick"), mapsof("map[string]*channel"), mapsof("map[*nick]*ChanPrivs"), mapsof("map[*channel]*ChanPrivs"), nick.nick, nick.ident, nick.host, nick.name, channel.topic, $log, $held, $tr
 //@   ensures $held === old($held)
@@ -370,6 +448,8 @@ package state
 //@ func (*stateTracker).Me
 //@   property C14, C12
 //@   attr lockcheck=C14
+//@   requires [C12] TI()
+//@   ensures [C12] TI()
 //@   requires trkOK(st) && held(st.mu) == 0
 //@   modifies mapsof("map[string]*nick"), mapsof("map[string]*channel"), mapsof("map[*nick]*ChanPrivs"), mapsof("map[*channel]*ChanPrivs"), nick.nick, nick.ident, nick.host, nick.name, channel.topic, $log, $held, $tr
 //@   ensures $held === old($held)
@@ -379,8 +459,10 @@ package state
 //@   ensures [C12] result != nil && result.Nick == st.me.nick && trkUnchanged(st)
 //@ end
 //@ func (*stateTracker).IsOn
-//@   property C14
+//@   property C14, C12
 //@   attr lockcheck=C14
+//@   requires [C12] TI()
+//@   ensures [C12] TI()
 //@   requires trkOK(st) && held(st.mu) == 0
 //@   modifies mapsof("map[string]*nick"), mapsof("map[string]*channel"), mapsof("map[*nick]*ChanPrivs"), mapsof("map[*channel]*ChanPrivs"), nick.nick, nick.ident, nick.host, nick.name, channel.topic, $log, $held, $tr
 //@   ensures $held === old($held)
@@ -388,8 +470,10 @@ package state
 //@   ensures result0 == nil || fresh(result0)
 //@ end
 //@ func (*stateTracker).Associate
-//@   property C14
+//@   property C14, C12
 //@   attr lockcheck=C14
+//@   requires [C12] TI()
+//@   ensures [C12] TI()
 //@   requires trkOK(st) && held(st.mu) == 0
 //@   modifies mapsof("map[string]*nick"), mapsof("map[string]*channel"), mapsof("map[*nick]*ChanPrivs"), mapsof("map[*channel]*ChanPrivs"), nick.nick, nick.ident, nick.host, nick.name, channel.topic, $log, $held, $tr
 //@   ensures $held === old($held)
@@ -398,8 +482,10 @@ package state
 //@   ensures result != nil ==> nk.chans[ch] != result && (!old(has(ch.nicks, nk)) ==> ch.nicks[nk] != result)
 //@ end
 //@ func (*stateTracker).Dissociate
-//@   property C14
+//@   property C14, C12
 //@   attr lockcheck=C14
+//@   requires [C12] TI()
+//@   ensures [C12] TI()
 //@   requires trkOK(st) && held(st.mu) == 0
 //@   modifies mapsof("map[string]*nick"), mapsof("map[string]*channel"), mapsof("map[*nick]*ChanPrivs"), mapsof("map[*channel]*ChanPrivs"), nick.nick, nick.ident, nick.host, nick.name, channel.topic, $log, $held, $tr
 //@   ensures $held === old($held)
@@ -413,9 +499,35 @@ package state
 // redundant indexes; trkShape is the part of the representation invariant
 // the per-method clauses below need.
 
+// Heap-wide type invariant: every nick / channel object ever allocated has its
+// maps and mode struct, and the membership maps hold non-nil keys and values.
+//@ pred TI() := (forall n *nick :: isa(n, "nick") ==> n.chans != nil && n.lookup != nil && n.modes != nil
+//@        && (forall c *channel :: has(n.chans, c) ==> c != nil && n.chans[c] != nil))
+//@     && (forall c *channel :: isa(c, "channel") ==> c.nicks != nil && c.lookup != nil && c.modes != nil
+//@        && (forall n *nick :: has(c.nicks, n) ==> n != nil && c.nicks[n] != nil))
+
+// Ownership: no two nick / channel objects share a map.
+//@ pred OWN() := (forall a *nick, b *nick :: isa(a, "nick") && isa(b, "nick") && a != b ==> a.chans != b.chans && a.lookup != b.lookup)
+//@     && (forall a *channel, b *channel :: isa(a, "channel") && isa(b, "channel") && a != b ==> a.nicks != b.nicks && a.lookup != b.lookup)
+// The membership relation is stored twice, with one shared ChanPrivs per pair.
+//@ pred TW() := (forall n *nick, c *channel :: isa(n, "nick") && has(n.chans, c) ==> isa(c, "channel") && has(c.nicks, n) && c.nicks[n] == n.chans[c])
+//@     && (forall c *channel, n *nick :: isa(c, "channel") && has(c.nicks, n) ==> isa(n, "nick") && has(n.chans, c))
+//@ pred HI() := TI() && OWN() && TW()
+//@ pred tracked(st *stateTracker, n *nick) := n != nil && has(st.nicks, n.nick) && st.nicks[n.nick] == n
+//@ pred trackedC(st *stateTracker, c *channel) := c != nil && has(st.chans, c.name) && st.chans[c.name] == c
+// every member of a tracked channel is a tracked nick
+//@ pred LT(st *stateTracker) := forall k int, n *nick :: has(dom(st.chans), k) && has(vals(st.chans)[k].nicks, n) ==> tracked(st, n)
+//@ pred LTx(st *stateTracker, x *nick) := forall k int, n *nick :: has(dom(st.chans), k) && has(vals(st.chans)[k].nicks, n) && n != x ==> tracked(st, n)
+// the name indexes are not any object's lookup map
+//@ pred sepIdx(st *stateTracker) := (forall n *nick :: isa(n, "nick") ==> n.lookup != st.chans) && (forall c *channel :: isa(c, "channel") ==> c.lookup != st.nicks)
+// deletions never change stored values
+//@ pred mapValsSame() := (forall m map[*channel]*ChanPrivs :: vals(m) === old(vals(m))) && (forall m map[*nick]*ChanPrivs :: vals(m) === old(vals(m)))
+//@     && (forall m map[string]*channel :: vals(m) === old(vals(m))) && (forall m map[string]*nick :: vals(m) === old(vals(m)))
+//@ pred RI(st *stateTracker) := HI() && trkShape(st) && LT(st) && sepIdx(st)
+
 //@ pred trkShape(st *stateTracker) := st != nil && st.nicks != nil && st.chans != nil && st.me != nil
-//@     && (forall k int :: has(dom(st.nicks), k) ==> vals(st.nicks)[k] != nil && sid(vals(st.nicks)[k].nick) == k)
-//@     && (forall k int :: has(dom(st.chans), k) ==> vals(st.chans)[k] != nil && sid(vals(st.chans)[k].name) == k)
+//@     && (forall k int :: has(dom(st.nicks), k) ==> vals(st.nicks)[k] != nil && isa(vals(st.nicks)[k], "nick") && sid(vals(st.nicks)[k].nick) == k)
+//@     && (forall k int :: has(dom(st.chans), k) ==> vals(st.chans)[k] != nil && isa(vals(st.chans)[k], "channel") && sid(vals(st.chans)[k].name) == k)
 //@     && has(st.nicks, st.me.nick) && st.nicks[st.me.nick] == st.me
 
 // nothing about any tracked nick / channel object or any index changes
@@ -432,6 +544,8 @@ package state
 //@ func NewTracker
 //@   property C12
 //@   safety C12
+//@   requires [C12] TI()
+//@   ensures [C12] TI()
 //@   ensures result != nil && fresh(result) && trkShape(result) && held(result.mu) == 0
 //@   ensures result.me.nick == mynick && dom(result.chans) === emptyset() && dom(result.nicks) === setadd(emptyset(), mynick)
 //@ end
